@@ -6,7 +6,7 @@ func specs() []*Spec {
 		{
 			ID:     "C01",
 			Units:  []Unit{{Pkg: "", Job: "C01", Quick: def, Thorough: def}},
-			Rule:   "E1 deviation-bounded product enumeration over 12 dimensions (variant, key scalar, key torsion T_0..7, key encoding, nonce scalar, R torsion, R encoding, message, 13 S-perturbations, 7 signature lengths, key replacement and R replacement by 14 torsion encodings / 38 y>=p strings / undecodable strings); triples satisfy the group equation by construction (S = r + h a with known discrete logs). Quick: all vectors with <= 2 non-default coordinates, thorough <= 3; plus the full 8x8 torsion grid per variant and every single-bit flip of key, signature and message of accepted triples. Oracle: ref.Verify on the same bytes. distinct = distinct vector; non-trivial = model verdict accept, or reject for a reason other than length.",
+			Rule:   "E1 deviation-bounded product enumeration over 12 dimensions (variant, key scalar, key torsion T_0..7, key encoding, nonce scalar, R torsion, R encoding, message, 13 S-perturbations, 7 signature lengths, key replacement and R replacement by 14 torsion encodings / 38 y>=p strings / undecodable strings); triples satisfy the group equation by construction (S = r + h a with known discrete logs). Quick: all vectors with <= 3 non-default coordinates, thorough <= 5; plus the full 8x8 torsion grid per variant and every single-bit flip of key, signature and message of accepted triples. Oracle: ref.Verify on the same bytes. distinct = distinct vector; non-trivial = model verdict accept, or reject for a reason other than length.",
 			Assume: append(trusted, "default-mode acceptance with S >= 2^252 is unreachable without a hash pre-image: decided by C04"),
 		},
 		{
@@ -18,7 +18,7 @@ func specs() []*Spec {
 		{
 			ID:     "C02",
 			Units:  []Unit{{Pkg: "", Job: "C02", Quick: def, Thorough: def}},
-			Rule:   "E1 enumeration: seeds LE32(0..n-1) + 0xff..ff (quick n=64, thorough n=4096 = the complete 12-bit seed subspace) x 20 message lengths at SHA-512 block/padding boundaries (pure); 4 (thorough 8) seeds x lengths x contexts (ctx lengths {1,2,31,32,94,95,96,254,255}, ph {0,1,254,255}; thorough every length 1..255 / 0..255) x option styles (*Options, crypto.Hash(0), crypto.SHA512, Sign helper) x entropy argument {nil, recording, panicking}. Oracle: ref.Sign/ref.Public == crypto/ed25519 of the toolchain == implementation, byte for byte; three calls identical; reader never called; inputs unmodified. non-trivial: all (every case compares 64-byte signatures).",
+			Rule:   "E1 enumeration: seeds LE32(0..n-1) + 0xff..ff (quick n=256, thorough n=4096 = the complete 12-bit seed subspace) x 20 message lengths at SHA-512 block/padding boundaries (pure); 4 (thorough 8) seeds x lengths x contexts (ctx lengths {1,2,31,32,94,95,96,254,255}, ph {0,1,254,255}; thorough every length 1..255 / 0..255) x option styles (*Options, crypto.Hash(0), crypto.SHA512, Sign helper) x entropy argument {nil, recording, panicking}. Oracle: ref.Sign/ref.Public == crypto/ed25519 of the toolchain == implementation, byte for byte; three calls identical; reader never called; inputs unmodified. non-trivial: all (every case compares 64-byte signatures).",
 			Assume: trusted,
 		},
 		{
@@ -48,7 +48,7 @@ func specs() []*Spec {
 		{
 			ID:     "C09",
 			Units:  []Unit{{Pkg: "", Job: "C09", Quick: []string{"default", "force32bit"}, Thorough: []string{"default", "force32bit"}}},
-			Rule:   "E1 enumeration: small-order predicate on the complete set of 14 torsion encodings, all 38 y>=p strings and undecodable strings; [k]B+T_i for 13 (quick 5) scalars k != 0 mod L x all 8 torsion points as key and as R, end to end in default mode (single, batch positions 0/3 of 4, 63/64 of 65, 64 of 130); each torsion encoding as key / as R in an equation-satisfying triple (default rejects, ZIP-215 accepts); exhaustive scan of y in [0,2^13) (thorough 2^16) x sign bit against the model. non-trivial = torsion or undecodable string, or an end-to-end triple.",
+			Rule:   "E1 enumeration: small-order predicate on the complete set of 14 torsion encodings, all 38 y>=p strings and undecodable strings; [k]B+T_i for 13 (quick 5) scalars k != 0 mod L x all 8 torsion points as key and as R, end to end in default mode (single, batch positions 0/3 of 4, 63/64 of 65, 64 of 130); each torsion encoding as key / as R in an equation-satisfying triple (default rejects, ZIP-215 accepts); exhaustive scan of y in [0,2^14) (thorough 2^18) x sign bit against the model. non-trivial = torsion or undecodable string, or an end-to-end triple.",
 			Assume: trusted,
 		},
 		{
@@ -72,7 +72,7 @@ func specs() []*Spec {
 		{
 			ID:     "C12",
 			Units:  []Unit{{Pkg: "extra/x25519", Job: "C12", Quick: []string{"default", "force32bit"}, Thorough: []string{"default", "force32bit", "386"}}},
-			Rule:   "E1 enumeration: seeds LE32(0..n-1)+0xff..ff (quick 64, thorough 4096): X25519(EdPrivateKeyToX25519(k), Basepoint) == EdPublicKeyToX25519(k.Public()) == model (ladder and Edwards map both), private conversion == clamp(SHA-512(seed)[:32]); public-key strings: every y in [0,2^13) (thorough 2^16) x sign, the 2^9 (2^12) largest 255-bit y (includes all 19 y >= p), 2^k and 2^k+-1, p+-{0,1,2}: result == canonical (1+y)/(1-y), zero for y = 1, failure flag exactly for undecodable strings. non-trivial = decodable string or seed case.",
+			Rule:   "E1 enumeration: seeds LE32(0..n-1)+0xff..ff (quick 64, thorough 4096): X25519(EdPrivateKeyToX25519(k), Basepoint) == EdPublicKeyToX25519(k.Public()) == model (ladder and Edwards map both), private conversion == clamp(SHA-512(seed)[:32]); public-key strings: every y in [0,2^14) (thorough 2^18) x sign, the 2^9 (2^12) largest 255-bit y (includes all 19 y >= p), 2^k and 2^k+-1, p+-{0,1,2}: result == canonical (1+y)/(1-y), zero for y = 1, failure flag exactly for undecodable strings. non-trivial = decodable string or seed case.",
 			Assume: trusted,
 		},
 		{
@@ -90,7 +90,7 @@ func specs() []*Spec {
 		{
 			ID:     "C10",
 			Units:  []Unit{{Pkg: "internal/ge25519", Job: "C10", Quick: []string{"default", "force32bit"}, Thorough: []string{"default", "force32bit", "386", "noasm+appengine"}}},
-			Rule:   "E1 enumeration: every y in [0,2^13) (thorough 2^16) x sign bit; the 2^9 (2^12) largest 255-bit y x sign (all 19 y >= p included); 2^k, 2^k+-1 for k < 255 x sign; public keys of 64 seeds. For each string: decodability == Euler criterion of the model, Pack(UnpackVartime(s)) == canonical encoding of the model's point, UnpackNegativeVartime gives the negation, Z = 1 and T = XY, decode-encode-decode is stable; both square-root branches (candidate root / root times sqrt(-1)), x = 0 and y >= p classes must be non-empty. Pack of non-normalised representations: 8 torsion + 26 (thorough 502) points x Z in {1,2,p-1,2^255-20,a0,19}, and with limbs left unreduced by one Add/Sub. non-trivial = decodable string or Pack case. (The X25519 conversion's use of decoding is C12.)",
+			Rule:   "E1 enumeration: every y in [0,2^14) (thorough 2^18) x sign bit; the 2^9 (2^12) largest 255-bit y x sign (all 19 y >= p included); 2^k, 2^k+-1 for k < 255 x sign; public keys of 64 seeds. For each string: decodability == Euler criterion of the model, Pack(UnpackVartime(s)) == canonical encoding of the model's point, UnpackNegativeVartime gives the negation, Z = 1 and T = XY, decode-encode-decode is stable; both square-root branches (candidate root / root times sqrt(-1)), x = 0 and y >= p classes must be non-empty. Pack of non-normalised representations: 8 torsion + 26 (thorough 502) points x Z in {1,2,p-1,2^255-20,a0,19}, and with limbs left unreduced by one Add/Sub. non-trivial = decodable string or Pack case. (The X25519 conversion's use of decoding is C12.)",
 			Assume: append(trusted, "field Contract/Expand as decided by C18"),
 		},
 		{
